@@ -269,8 +269,8 @@ class Sample:
                 hgvs += [get_mut(read.pos - 1, read.ref, a) for a in read.alleles[1:]]
                 for gt in g:
                     pos, op = hgvs[gt]
-                    if op == "_":
-                        continue
+                    if op is None or op == "_":
+                        continue  # reference allele or unsupported record shape
                     muts[pos, op] += [(40, 40)] * 10
                     norm[pos] = norm[pos][:-10]
                     dump_arr[pos] = op
